@@ -472,6 +472,28 @@ def c1(repo: Repo) -> RuleResult:
                     type_ok = True
                 if k_[0] == "truthy" and t_ is False and _show(k_[1]) in (f"{DESC}.validator(option.value)", f"({DESC}.validator)(option.value)") or (k_[0] == "truthy" and t_ is False and "validator" in _show(k_[1]) and _show(k_[1]).endswith("(option.value)")):
                     validator_ok = True
+                elif k_[0] == "truthy" and t_ is False and _show(k_[1]).startswith(DESC + ".") and _show(k_[1]).endswith("(option.value)"):
+                    # a predicate method of the descriptor: it must be the validator applied to the value
+                    # (true without a validator)
+                    mname_ = _show(k_[1])[len(DESC) + 1 : -len("(option.value)")]
+                    owners_ = [c_ for c_ in get_model(repo).all_classes() if c_.rel.endswith("_ast.py") and mname_ in c_.methods and len(c_.methods[mname_].node.args.args) == 2]
+                    if len(owners_) == 1:
+                        fm_ = owners_[0].methods[mname_]
+                        flm_ = compiler_flow(repo, owners_[0].name, "_ast.py")
+                        pa_ = [a_.arg for a_ in fm_.node.args.args]
+                        rets_ = [q_ for q_ in flm_.run(fm_.node, {pa_[0]: _V("self"), pa_[1]: _V("value")}) if q_.done == "return" and q_.ret is not None]
+                        applied_ = False
+                        sound_ = bool(rets_)
+                        for q_ in rets_:
+                            rt_ = _show(q_.ret)
+                            if rt_ in ("self.validator(value)", "bool(self.validator(value))", "(self.validator)(value)"):
+                                applied_ = True
+                            elif q_.ret.const_value() == 1 and any(g_[0][0] in ("isnone", "truthy") and _show(g_[0][1]) == "self.validator" and (g_[1] is True if g_[0][0] == "isnone" else g_[1] is False) for g_ in q_.guards):
+                                pass
+                            else:
+                                sound_ = False
+                        if applied_ and sound_:
+                            validator_ok = True
         if not unknown_ok:
             res.bad(Finding("C1", fi.rel, fi.node.lineno, fi.qual, "", "an option without descriptor is not rejected with UnsupportedOption", witness="option foo.bar = 1", tag="option:unknown"))
         if not lookup_ok:
